@@ -48,7 +48,7 @@ pub fn flat_world(rng: &mut Rng, nt: usize, ncmd: usize, max_retained: usize, un
         }
         targets.push(TargetSpec { path, ..Default::default() });
     }
-    WorldSpec { targets, cmd_files, files: vec![], sequences: vec![], max_retained_runs: max_retained, gitignore: vec![], git, lock_host: None, default_ports: 0, omit_max_retained: false, sha256_repo: false, clock_plan: vec![] }
+    WorldSpec { targets, cmd_files, files: vec![], sequences: vec![], max_retained_runs: max_retained, gitignore: vec![], git, lock_host: None, default_ports: 0, omit_max_retained: false, sha256_repo: false, clock_plan: vec![], script_wrappers: 0 }
 }
 
 /// A run step over a flat world: explicit targets (or all), a subset of commands, serial-tagged output.
@@ -202,7 +202,7 @@ fn gen_c12_huge(rng: &mut Rng) -> C12Scenario {
         targets.push(TargetSpec { path, ..Default::default() });
     }
     let seq: Vec<String> = (0..165).map(|i| format!("c{:03}", i)).collect();
-    let spec = WorldSpec { targets, cmd_files, files: vec![], sequences: vec![("big".into(), seq)], max_retained_runs: 2, gitignore: vec![], git: false, lock_host: None, default_ports: 0, omit_max_retained: false, sha256_repo: false, clock_plan: vec![] };
+    let spec = WorldSpec { targets, cmd_files, files: vec![], sequences: vec![("big".into(), seq)], max_retained_runs: 2, gitignore: vec![], git: false, lock_host: None, default_ports: 0, omit_max_retained: false, sha256_repo: false, clock_plan: vec![], script_wrappers: 0 };
     let small = |serial: usize, spec: &WorldSpec| {
         let t = spec.targets[serial % 5].path.clone();
         RunStep {
